@@ -723,6 +723,10 @@ Hnextread(int32 access_id, uint16 tag, uint16 ref, int origin)
             default: /* do nothing for other cases currently */
                 break;
         } /* end switch */
+
+        /* the special element has been let go of: if no further DD is found the access
+           record must not be ended as a special element a second time */
+        access_rec->special = 0;
     }
 
     if (origin == DF_START) { /* set up variables to start searching from beginning of file */
@@ -768,6 +772,9 @@ Hnextread(int32 access_id, uint16 tag, uint16 ref, int origin)
             HGOTO_DONE(SUCCEED);
         } /* end if */
         else {
+            /* the special element could not be started (e.g. a coder that is not available):
+               whatever the start routine set up is gone, the access record is not special */
+            access_rec->special = 0;
             HGOTO_DONE(FAIL);
         } /* end if */
     }
